@@ -14,7 +14,8 @@ RULE = ("a case = one generated Var tree with its ops: enc (Json::encode / Xdl::
         "canonical dump), file (write to a file, compare the file with encode(), read it back); trees are type-directed (depth <= 8): "
         "null/undefined/bool, ints incl. INT_MIN/INT_MAX and the 9/10-character split, doubles from bit patterns (denormals, +-DBL_MAX, -0, "
         "powers of two +-1ulp, integral values, NaN/inf), floats from bit patterns, strings/keys with control characters, quotes, backslashes, "
-        "'/', 0x7f, UTF-8 and raw high bytes, arrays around the pretty-printer thresholds (10, 16, 100 chars), objects incl. $type; file "
+        "'/', 0x7f, UTF-8 and raw high bytes, arrays around the pretty-printer thresholds (10, 16, 100 chars), objects incl. $type (every run: $type holding each of ~60 values - class names, strings "
+        "that are not class names, reserved words, non-strings - alone, among other members, nested); file "
         "sizes slid across the 16382-byte read chunk and the 16000-byte flush threshold; non-trivial = distinct case with a non-scalar tree "
         "or a non-trivial scalar")
 TRUSTED = ["tools/props/c05.py generators and the python3 oracles (json.loads of the encoder output; expected dump computed from the tree)",
@@ -180,7 +181,8 @@ def gen_tree(rng, depth, maxdepth, opts):
     elif rng.random() < 0.06:
         # a `$type` that is not a string: the XDL encoder prints **cname (Var::operator*)
         ms.append((b"$type", rng.choice([("n",), ("z",), ("b", True), ("b", False), ("i", 7), ("d", 0x3ff8000000000000), ("F", 0x3fc00000),
-                                         ("a", [("i", 1)]), ("o", [(b"k", ("i", 1))]), ("s", b""), ("s", b"a b")])))
+                                         ("a", [("i", 1)]), ("o", [(b"k", ("i", 1))]), ("s", b""), ("s", b"a b"), ("s", b"true"), ("s", b"Y"),
+                                         ("s", b"null"), ("s", b"1a"), ("s", b"a.b"), ("s", b"a-b"), ("s", b"$x"), ("s", b"\xc3\xa9")])))
     return ("o", ms)
 
 
@@ -189,17 +191,14 @@ def ident_ok(k, digit_first=False):
 
 
 def xdl_ok(t):
-    """keys are identifiers (the property's XDL clause)"""
+    """keys are identifiers (the property's XDL clause): a letter, digit, `_` or `$`, then letters, digits, `_`.
+    `$type` is such a key and may hold any value (a class name is written in class notation, anything else as a property)"""
     if t[0] == "a":
         return all(xdl_ok(x) for x in t[1])
     if t[0] in ("r", "N", "O"):
         return xdl_ok(t[2])
     if t[0] == "o":
         for k, v in t[1]:
-            if k == b"$type":
-                if v[0] != "s" or len(v[1]) == 0 or not ident_ok(v[1]) or v[1] in (b"Y", b"N", b"true", b"false", b"null") or v[1][:1] == b"$" and False:
-                    return False
-                continue
             if not ident_ok(k, True) or not xdl_ok(v):
                 return False
     return True
@@ -453,6 +452,12 @@ def extra(ctx):
 
 # ----------------------------------------------------------------------------- generator
 
+CLASS_VALUES = [("s", x) for x in (b"Car", b"car_2", b"_x", b"$x", b"$", b"a.b", b"a.", b"a..b.c", b"x9", b"e5", b"T", b"Yes", b"No", b"nul", b"nulls", b"True",
+                                    b"", b"a b", b" a", b"a-b", b"a/b", b"a=b", b"a{", b"a}", b'a"b', b"a,b", b".a", b"1a", b"9", b"-a", b"+", b"Y", b"N",
+                                    b"true", b"false", b"null", b"\xc3\xa9", b"a\xc3\xa9", b"a\nb", b"a\tb", b"[?]", b"?", b"a" * 40)] + \
+               [("n",), ("z",), ("b", True), ("b", False), ("i", 5), ("i", 0), ("i", -7), ("d", 0x3ff8000000000000), ("d", 0x7ff0000000000000),
+                ("F", 0x3fc00000), ("a", []), ("a", [("i", 1)]), ("o", []), ("o", [(b"k", ("i", 1))]), ("o", [(b"$type", ("s", b"In"))])]
+
 JSON_MODES = [8, 9, 8, 9, 10, 11, 40, 41]
 XDL_MODES = [0, 1, 2, 3]
 
@@ -484,6 +489,13 @@ def gen(rng, tier):
     quick = tier == "quick"
     N = 1 if quick else 10
     cases = []
+    # `$type` with every kind of value (class names, strings that are not class names, non-strings), alone, with other members,
+    # nested in objects and arrays: XDL and JSON, compact and pretty, encode bytes, round trip and files
+    for tv in CLASS_VALUES:
+        for tree in [("o", [(b"$type", tv)]), ("o", [(b"$type", tv), (b"x", ("i", 1))]), ("o", [(b"a", ("b", True)), (b"$type", tv), (b"x", ("i", 1))]),
+                     ("o", [(b"p", ("o", [(b"$type", tv), (b"x", ("i", 1))]))]), ("a", [("o", [(b"$type", tv)]), ("o", [(b"$type", ("s", b"Car")), (b"$x", tv)])])]:
+            ts = " ".join(tokens(tree))
+            cases.append(["rt %d %s" % (m, ts) for m in (0, 1, 8, 9)] + ["file %d %s" % (m, ts) for m in (0, 1)] + ["enc %d %s" % (m, ts) for m in (0, 1, 8)])
     # scalars: every special value in every number mode (ties Dtoa.fmtG / Strtod to glibc)
     for b in SPECIAL_D:
         cases.append(["enc %d d%016x" % (m, b) for m in (8, 10, 40, 42)] + ["rt 8 d%016x" % b, "rt 0 d%016x" % b])
@@ -603,21 +615,23 @@ LEVEL_TEXT = ("Proved in Lean 4 about the executable model of XdlEncoder/Xdl::wr
               "mode), int_lexeme_exact and atof_int_exact (myitoa spells the int; the model atof of that lexeme is exactly the int - the 10+ "
               "character ints), json_roundtrip + json_roundtrip_same (decode(encode v) has the structure of v: same array lengths/order, same "
               "keys in order, identical strings/booleans, undefined members dropped - relation Same, for trees with distinct keys), "
-              "xdl_roundtrip + xdl_roundtrip_same (compact and pretty XDL, identifier keys incl. digit-first, class names), sink_concat / "
+              "xdl_roundtrip + xdl_roundtrip_same (compact and pretty XDL, identifier keys incl. digit-first and `$type` with ANY value: "
+              "xdl_class_name_test - class notation is used exactly for the strings the decoder reads back as a class name, everything else is "
+              "an ordinary property), sink_concat / "
               "writer_refines (the 16000-byte flushing sink loses and duplicates nothing, every mode), read_chunks, file_roundtrip and "
               "xdl_file_roundtrip (write then read through a file of any size = decode(encode)), double_roundtrip / float_roundtrip (the "
               "bit-for-bit clauses, conditional on H2d/H2f = 'atof of the 17/9-digit lexeme is the number', a statement about libc), fmtG_H1 and "
               "fmtG_H1v (PROVED for the formatter the driver runs: Dtoa.fmtG prints an RFC number whose decimal value is the double's value "
               "rounded half-even to P digits, all three %g layouts, exact over Q - so no theorem is vacuous for that instance and 'denotes the "
               "same value' is a statement about values). The model is tied to the code by the correspondence check "
-              "under ASan (encode bytes in 8 modes incl. non-string $type, decode(encode), write/read through files slid across the 16382/16000 "
+              "under ASan (encode bytes in 8 modes incl. every kind of $type, decode(encode), write/read through files slid across the 16382/16000 "
               "boundaries, nesting 999/1000/1001) and python3 json parses every JSON-mode output.")
 LEVEL_NOTE = ("Partial / not proved: (1) H2d and H2f (17 resp. 9 digits identify a double/float through atof) are hypotheses - `def "
               "double_roundtrip_full` states H2d for the concrete Dtoa.fmtG/Strtod.atofBits; K and the python oracle exercise it on every "
               "generated number (denormals, +-DBL_MAX, -0, powers of two +-1ulp, random bits). (2) Strtod.atofBits is proved exact "
               "on integer lexemes only (atof_int_exact), not correctly rounded in general. Same/SameX need distinct keys per object (what Dic "
-              "guarantees); with duplicate keys the last value wins (C06 norm_object_lookup). XDL theorems need identifier keys and a string "
-              "class name (non-string $type is covered by sink_concat/writer_refines and K only). "
+              "guarantees); with duplicate keys the last value wins (C06 norm_object_lookup). XDL theorems need identifier keys. "
               "Fixed in /repo for this property: 737b5bf, 88049f3, a755d42 (found by this check: 1-2 byte files could not be read back), "
+              "c4482e8 (a $type that is not a class name destroyed the XDL round trip; the check had scoped such trees out - now in scope), "
               "c9789c6 (nesting limit). Not a defect as worded: -0.0 and integral doubles are written without fraction ('-0', '5') and come back "
               "as ints of the same numeric value; ints of 10+ characters come back as doubles of the same value (atof_int_exact).")
